@@ -48,6 +48,15 @@ def sub(k, i):
     return ('sub', k, N(i))
 
 
+CHECK_RANGE_REF = """
+def f(self, T):
+    if self.range is None:
+        return
+    if np.any(T < self.range[0]) or np.any(T > self.range[1]):
+        raise OutsideCorrelationError('x')
+"""
+
+
 def outside(x, rng):
     """normal form of  x < rng[0] or x > rng[1]"""
     return ('or', tuple(sorted([('cmp', '<', x, sub(rng, 0)),
@@ -93,36 +102,11 @@ def run(chk, repo, tier):
     # ---- R06.2 ----------------------------------------------------------
     f = repo.func(BASE, 'ThermochemBase.check_range')
     tn = params(f)[1]
-    paths = sym.summarize(f)
-    none_atom = ('cmp', 'is', A('range'), ('const', None))
-    out_atom = outside(('name', tn), A('range'))
-    ok = True
-    found = []
-    for p in paths:
-        found.append(p.describe())
-        facts = p.facts()
-        rest = dict((a, v) for a, v in facts.items() if a != none_atom)
-        if facts.get(none_atom) is True:
-            ok = ok and p.outcome == ('return', ('const', None)) and not rest
-        elif facts.get(none_atom) is False:
-            conds = [(k, pol) for k, pol in p.conds()
-                     if sym.atom_of(k)[0] != none_atom and k != ('not',
-                                                                 none_atom)]
-            if len(conds) != 1 or conds[0][0] != out_atom:
-                ok = False
-            elif conds[0][1]:
-                ok = ok and p.outcome[0] == 'raise' \
-                    and p.outcome[1] == 'OutsideCorrelationError'
-            else:
-                ok = ok and p.outcome == ('return', ('const', None))
-        else:
-            ok = False
-    chk.ob('R06.2', ok and len(paths) == 3, BASE, f, key='check_range-table',
-           what='check_range raises OutsideCorrelationError iff T < range[0] '
-                'or T > range[1]; only bypass: range is None',
-           found=' || '.join(found)[:600],
-           required='[range is None]->return; [%s]->raise '
-                    'OutsideCorrelationError; else return' % show(out_atom))
+    from .. import refcmp
+    refcmp.check(chk, 'R06.2', BASE, f, CHECK_RANGE_REF,
+                 key='check_range-table',
+                 what='check_range raises OutsideCorrelationError iff T < '
+                      'range[0] or T > range[1]; only bypass: range is None')
     gr = sym.summarize(repo.func(BASE, 'ThermochemBase.get_range'))
     chk.ob('R06.2', len(gr) == 1 and gr[0].outcome == ('return', A('range')),
            BASE, repo.func(BASE, 'ThermochemBase.get_range'),
@@ -398,20 +382,26 @@ def run(chk, repo, tier):
     for mname in ('get_CpoR', 'get_HoRT', 'get_SoR'):
         f = em[mname]
         tn = params(f)[1]
-        calls = [c for c in ast.walk(f) if isinstance(c, ast.Call)
-                 and isinstance(c.func, ast.Attribute)
-                 and c.func.attr == mname and dotted(c.func.value) != 'self']
-        ok = bool(calls) and all(
-            len(c.args) == 1 and isinstance(c.args[0], ast.Name)
-            and c.args[0].id == tn and not c.keywords for c in calls)
-        stores_T = [n for n in ast.walk(f) if isinstance(n, ast.Name)
-                    and n.id == tn and isinstance(n.ctx, ast.Store)]
-        chk.ob('R06.6', ok and not stores_T and not c01.has_try(f), GD, f,
+        # on the path summaries, so that a summation moved into a helper
+        # (followed by the summariser) is seen where it is evaluated
+        calls = set()
+        ok = True
+        handler = False
+        for p in sym.summarize(f):
+            handler = handler or sym.has_handler(p)
+            for k in sym.path_keys(p):
+                if is_call(k) and k[1][0] == 'attr' and k[1][2] == mname \
+                        and k[1][1] != SELF:
+                    calls.add(k)
+                    if k[2] != (('name', tn),) or k[3]:
+                        ok = False
+        ok = ok and bool(calls)
+        chk.ob('R06.6', ok and not handler and not c01.has_try(f), GD, f,
                key='own-T-to-constituents:' + mname,
                what='%s hands its own T unchanged to every constituent\'s '
                     '%s and has no handler that could swallow their range '
                     'errors' % (mname, mname),
-               found='; '.join(src(c) for c in calls))
+               found='; '.join(show(c) for c in calls))
     # ---- R06.7 the wrapper's delegate enforces the wrapper's own range --------
     setup = repo.func(INC, 'ThermochemIncomplete._setup_correlation')
     built = []
